@@ -46,8 +46,9 @@ class Formatter(AbstractFormatter):
     def _repr(self, value: Any) -> str:
         try:
             return repr(value)
-        except ValueError:
-            # e.g. an int with more digits than sys.get_int_max_str_digits() allows
+        except (ValueError, RecursionError):
+            # e.g. an int with more digits than sys.get_int_max_str_digits() allows,
+            # or a value nested deeper than the recursion limit
             return object.__repr__(value)
 
     def _pluralize(self, count: int, options: Sequence[str]) -> str:
